@@ -27,6 +27,7 @@ namespace cdsverif {
         std::vector<std::string> samples;   // verbatim non-trivial cases
         size_t largest_sample = 0;
         std::string abort_note;
+        std::vector<std::string> exhaustive_domains;   // sub-domains enumerated completely by this run
 
         void account( Case const& c, Verdict const& v, Schema const& s, bool shrinking );
         void write() const;                 // prefix.stats.json, prefix.hashes
